@@ -26,10 +26,16 @@ class State:
         self.path_kind = None
         self.path_nth = 1
         self.path_seen = 0
+        self.deferred_pending = 0  # deferred errors planted / raised at flush, close or the end of a with block
+        self.deferred_raised = 0
         self.log = []              # (kind, path) of every point met
         # flavour of the injected error: with an errno (what the OS reports), or "plain": an OSError built
         # from a message only (what numpy's tofile raises on a short write: "N requested and M written")
         self.plain = False
+        # "deferred": the failing write() is accepted (as buffered I/O accepts it) and nothing of it reaches the file;
+        # the error is raised when the buffer would be flushed - by flush(), by close(), or on leaving the with
+        # block. A file object that is merely dropped loses the error (CPython ignores what a finalizer raises).
+        self.deferred = False
 
 
 S = State()
@@ -68,8 +74,35 @@ class WProxy:
         self._p = path
 
     def write(self, b):
+        if S.deferred:
+            if getattr(self, "_pending", None) is not None:
+                return len(b)
+            try:
+                _point("write", self._p)
+            except OSError as e:
+                self._pending = e
+                S.deferred_pending += 1
+                return len(b)
+            return self._f.write(b)
         _point("write", self._p)
         return self._f.write(b)
+
+    def _surface(self):
+        e = getattr(self, "_pending", None)
+        if e is not None:
+            self._pending = None
+            S.deferred_raised += 1
+            raise e
+
+    def flush(self):
+        self._surface()
+        return self._f.flush()
+
+    def close(self):
+        try:
+            self._surface()
+        finally:
+            self._f.close()
 
     def writelines(self, lines):
         for l in lines:
@@ -80,7 +113,10 @@ class WProxy:
         return self
 
     def __exit__(self, *a):
-        return self._f.__exit__(*a)
+        r = self._f.__exit__(*a)
+        if a[0] is None:
+            self._surface()
+        return r
 
     def __getattr__(self, n):
         return getattr(self._f, n)
